@@ -35,6 +35,7 @@ type State struct {
 	// stHavoc: comps explicitly havoc'd in addition to (or instead of) all unprotected ones
 	only map[string]bool
 	loop *loopInfo
+	havocTotal bool // stHavoc: every component except logs/locals is unknown
 	vc   *FuncVC
 	tag  string
 }
@@ -84,6 +85,9 @@ func (s *State) get(comp string) Term {
 			hav = true
 		}
 		if s.havocAll && !vc.protected(comp) {
+			hav = true
+		}
+		if s.havocTotal && comp != "alloc" && !strings.Contains(comp, "#L") && !strings.HasPrefix(comp, "LG!") && !strings.HasPrefix(comp, "IT!") && comp != "clock" {
 			hav = true
 		}
 		if hav {
